@@ -193,6 +193,7 @@ func runC15(c *Ctx) {
 		or := p.Fn("sio", "Manager.onReconnect")
 		c.Ob("C15-D2", "sio.Manager.onReconnect/reset", or.Pos(), len(CallsTo(Calls(or), `\(\*sio\.backoff\)\.reset`)) == 1, "a successful reconnect must reset the back-off")
 		oc := p.Fn("sio", "Manager.onClose")
+		c.Ob("C15-D2", "sio.Manager.onClose/reset", oc.Pos(), len(CallsTo(Calls(oc), `\(\*sio\.backoff\)\.reset`)) == 1, "a lost connection must reset the back-off before reconnecting (each outage starts again from ReconnectionDelay and a full attempt budget)")
 		rc := CallsTo(Calls(oc), `\(\*sio\.Manager\)\.reconnect`)
 		okr := len(rc) == 1 && HasGuard(rc[0].Instr, `m\.noReconnection==false`) && HasGuard(rc[0].Instr, `m\.skipReconnect==false`)
 		c.Ob("C15-D2", "sio.Manager.onClose/reconnects", oc.Pos(), okr, "a lost connection must start reconnecting unless reconnection is disabled or was stopped on purpose")
